@@ -355,13 +355,16 @@ def r10_step_chaining(run, F):
         run.require(len(cands) == 1, "generate_word_deref not found")
         b = cands[0]
     n = 0
+    seeds = [q.get("name") for q in b.get("params", []) if "LLVMValue" in str(F.lib.ty(q.get("t")))]
+    run.require(len(seeds) == 1, "generate_word_deref: expected one LLVMValueRef parameter, found %s" % seeds)
     for c in hirq.calls(b["hir"]):
         if (hirq.callee(c) or "").endswith("LLVMBuildExtractValue"):
             n += 1
             o = origins.origins(b["hir"], c["a"][1], b.get("params", ()))
             carried = any(k[0] == "call" and str(k[1]).endswith("LLVMBuildExtractValue") for k in o)
-            run.ob("R10-STEP-CHAINING", "extractvalue #%d aggregate" % n, carried and ("param", "from") in o, F.where(b, c),
-                   "the aggregate operand must be the value accumulated by the previous steps (seeded with `from`); origins: %s" % sorted(map(str, o)))
+            run.ob("R10-STEP-CHAINING", "extractvalue #%d aggregate" % n, carried and any(("param", v) in o for v in seeds), F.where(b, c),
+                   "the aggregate operand must be the value accumulated by the previous steps (seeded with the LLVMValueRef parameter %s); origins: %s" % (
+                       seeds, sorted(map(str, o))))
     run.floor("R10-STEP-CHAINING", 2, "extractvalue sites in generate_word_deref (Autodeslice, Member)")
     rets = [c for c in hirq.calls(b["hir"]) if (hirq.callee(c) or "").endswith("::Some") and c.get("a")]
     ok = False
